@@ -179,6 +179,16 @@ def read_back(prop, fmt, lang, real, add, meta_base, text=None, reader=None, suf
             add({'e': 'reader_raised', 'p': prop, 'fmt': fmt}, dict(meta, reader_raised='reader returned an object that is not a tree of categories: ' + repr(e)[:200]))
             continue
         add({'e': 'read', 'p': prop, 'fmt': fmt, 'd': d, 'r': r}, meta)
+        # the token list a reader returns next to a tree is that tree's own leaf tokens, in order (judged once the whole file has been read)
+        if getattr(res, 'tokens', None) is not None:
+            def light(tok):
+                return [{'k': a['k'], 'cp': a['cp']} for a in tok]
+            try:
+                lst = [light(trees.enc_token(dict(t))) for t in res.tokens]
+            except Exception as e:
+                add({'e': 'reader_raised', 'p': prop, 'fmt': fmt}, dict(meta, reader_raised='token list is not a list of tokens: ' + repr(e)[:200]))
+                continue
+            add({'e': 'rtoks', 'p': prop, 'fmt': fmt, 'leaf': [light(x['tok']) for x in trees.leaves_of(r)], 'list': lst}, meta)
     return text, results
 
 
